@@ -725,6 +725,65 @@ impl Real {
         }
     }
 
+    /// The same adaptive attack on `Accumulator::accumulate`: the challenge actually used is
+    /// visible in the output (`lhs` scalars are `1, r, r², …` for proof accumulators); member `j`
+    /// is then replaced by the π-shift that cancels member `i` at that challenge
+    /// (`Σ rᵏ·δₖ = 0` ⇒ `a_j = −r^(i−j)`). A challenge that hashes every member changes.
+    pub fn adaptive_accumulate(&mut self, ctx: &mut Ctx, fill: &[Mem], base: &Mem, i: usize, j: usize) {
+        assert!(i != j && fill.len() >= 2);
+        let mut ms = fill.to_vec();
+        ms[i] = self.shifted(base, F::ONE);
+        ms[j] = self.shifted(base, F::ZERO);
+        let mut accs = vec![];
+        for m in &ms {
+            let c = self.classify(ctx, m);
+            let name = format!("vk{}", self.rels[m.vk_of].name);
+            let Some((acc, _, _)) = self.real_acc(ctx, m, &c, &name, false) else { return };
+            accs.push(acc);
+        }
+        let out = Accumulator::<S>::accumulate(&accs);
+        let sc = out.lhs().scalars();
+        if sc.len() != ms.len() || sc[0] != F::ONE {
+            return;
+        }
+        let r = sc[1];
+        let a_j = if i > j { -r.pow([(i - j) as u64]) } else { -r.invert().unwrap_or(F::ONE).pow([(j - i) as u64]) };
+        ms[j] = self.shifted(base, a_j);
+        self.accumulate(ctx, "accumulate:real:adaptive-attack", &ms, false);
+    }
+
+    /// Regression of 348977f on real proofs: the batched guard `Σ r^(n-1-i)·guardᵢ` of several
+    /// proofs under ONE key, converted with `from_dual_msm`, must check like the batched guard.
+    pub fn from_dual_of_batched(&mut self, ctx: &mut Ctx, ms: &[Mem], r: F) {
+        let classes: Vec<Class> = ms.iter().map(|m| self.classify(ctx, m)).collect();
+        if classes.iter().any(|c| c.guard.is_none()) || ms.iter().any(|m| m.vk_of != ms[0].vk_of) {
+            return;
+        }
+        let mut acc = classes[0].guard.clone().unwrap();
+        for c in classes.iter().skip(1) {
+            acc.scale(r);
+            acc.add_msm(c.guard.clone().unwrap());
+        }
+        let name = format!("vk{}", self.rels[ms[0].vk_of].name);
+        let fb = verifier::fixed_bases::<S>(&name, self.rels[ms[0].vk_of].vk.vk());
+        let gchk = acc.clone().check(&self.vp);
+        let tau_g2: <S as SelfEmulation>::G2Affine = (G2Projective::generator() * self.tau).into();
+        let detail = json!({"members": ms.iter().map(|m| m.desc.clone()).collect::<Vec<_>>(), "r": fe_hex(&r)});
+        match catch(|| Accumulator::<S>::from_dual_msm(acc.clone(), &name, &fb)) {
+            Ok(a) => {
+                let achk = a.check(&tau_g2, &fb);
+                ctx.count(&format!("fromdual:real-batched-guard:n={}:{}", ms.len(), if gchk { "valid" } else { "invalid" }));
+                if achk != gchk {
+                    ctx.oracle_fail("from_dual_msm:repeated-label", "Accumulator::from_dual_msm of a batched real guard: check differs from the guard's check", detail);
+                }
+                let dual_text = dual_str_opaque(&acc, &mut self.pts);
+                let fb_text = mzkh::join(&fb.iter().map(|(k, b)| format!("{k}={}", self.pts.opaque(b))).collect::<Vec<_>>());
+                ctx.case("fromdual:real-batched-guard", true, &format!("fromdual {name} {dual_text} {fb_text}"), &acc_str(&a, &self.pts, false));
+            }
+            Err(p) => ctx.oracle_fail("from_dual_msm:panic", "Accumulator::from_dual_msm panics on a batched real guard", json!({"batch": detail, "panic": p})),
+        }
+    }
+
     pub fn shuffle(rng: &mut ChaCha8Rng, ms: &mut [Mem]) {
         ms.shuffle(rng);
     }
